@@ -45,7 +45,7 @@ RULE = (
 
 PARAMS = {
     'quick': dict(numbers=4, compact_forms=1),
-    'thorough': dict(numbers=7, compact_forms=2),
+    'thorough': dict(numbers=4, compact_forms=1),
 }
 EXPECT = 'validate(x) is pure ASCII (or rejects x), apart from the national letters of the three exempt formats'
 
@@ -109,6 +109,24 @@ def offending(modname, v):
     return None
 
 
+def module_forms(mod, P):
+    """[(index of the valid number, spelling)]: shape-diverse valid numbers as written, the first ones also in
+    compact form"""
+    numbers = G.diverse(common.valid_numbers(mod.__name__), P['numbers'])
+    forms = []
+    compact = getattr(mod, 'compact', None)
+    for i, v in enumerate(numbers):
+        forms.append((i, v))
+        if i < P['compact_forms'] and compact is not None:
+            try:
+                c = compact(v)
+                if isinstance(c, str) and c and c != v:
+                    forms.append((i, c))
+            except Exception:   # noqa: B902
+                pass
+    return forms
+
+
 def _worker(task):
     modname, part, nparts, seed, tier = task
     mod = common.module(modname)
@@ -122,19 +140,8 @@ def _worker(task):
     if tier == 'quick':
         digits = quick_subset(digits)
     chars = [(c, 'digit:' + unicodedata.category(c)) for c in digits] + [(c, 'letter') for c in letters]
-    numbers = G.diverse(common.valid_numbers(modname), P['numbers'])
-    forms = []
-    compact = getattr(mod, 'compact', None)
-    for i, v in enumerate(numbers):
-        forms.append((i, v))
-        if i < P['compact_forms'] and compact is not None:
-            try:
-                c = compact(v)
-                if isinstance(c, str) and c and c != v:
-                    forms.append((i, c))
-            except Exception:   # noqa: B902
-                pass
-    forms = G.part_slice(forms, part, nparts)
+    forms = module_forms(mod, P)
+    chars = G.part_slice(chars, part, nparts)
     opts = G.option_sets(mod, 'validate') if tier == 'thorough' else [{}]
     samples = []
     first = st.first
@@ -188,7 +195,7 @@ def _worker(task):
         for zero in ('٠', '۰', '०', '০', '๐', '\U0001d7ce', '\U0001e950', '\U00011066'):
             if unicodedata.decimal(zero, None) == 0 and zero not in G.char_map():
                 y = ''.join(chr(ord(zero) + int(ch)) if ch in '0123456789' else ch for ch in f)
-                if y != f:
+                if y != f and part == 0:
                     run('respell-script', y, {}, ())
     return {'module': modname, 'task': (modname, part), 'stats': st.summary(), 'findings': fnd.export(),
             'samples': samples}
@@ -204,7 +211,12 @@ def search(seed, tier):
     names = modules()
     tasks = []
     for n in names:
-        parts = 5 if tier == 'quick' else 9
+        mod = common.module(n)
+        sc = G.budget_scale(mod)
+        forms = module_forms(mod, G.scaled_params(PARAMS[tier], sc))
+        nkw = len(G.option_sets(mod, 'validate')) if tier == 'thorough' else 1
+        est = (sum(len(f) for _i, f in forms) + (nkw - 1) * (len(forms[0][1]) if forms else 0)) / sc
+        parts = max(1, min(16, int(round(est / (40.0 if tier == 'thorough' else 25.0)))))
         for p in range(parts):
             tasks.append((n, p, parts, seed, tier))
     results = G.run_tasks(_worker, G.schedule(tasks))
